@@ -79,6 +79,9 @@ pub struct Puppet {
     /// C19 exactly-when: (kind, round) that must be emitted by the end of the current step.
     expect_cert: Option<(&'static str, Round)>,
     own_vote_counted: bool,
+    /// Puppets whose timeout for the current trickle reported the genesis QC (candidates for a
+    /// later re-send reporting a higher QC).
+    sent_low_timeouts: Vec<usize>,
     /// Content identities of every valid variant (same digest) the node may have stored.
     variants: HashMap<Digest, HashSet<Digest>>,
 }
@@ -136,6 +139,7 @@ impl Puppet {
             pending_tc_for_next: None,
             expect_cert: None,
             own_vote_counted: false,
+            sent_low_timeouts: Vec::new(),
             variants: HashMap::new(),
         }
     }
@@ -525,7 +529,21 @@ impl Puppet {
             Some(p) => p,
             None => return,
         };
+        // A puppet that already sent its timeout with the genesis QC sends it again, now reporting a
+        // higher QC (what a node does when its timer fires again after it learnt a newer QC). It
+        // must not be counted a second time.
+        if !self.sent_low_timeouts.is_empty() && self.tip.1 > 0 && self.tip.1 < r && self.r.chance(0.3) {
+            let k = self.r.below(self.sent_low_timeouts.len());
+            let q = self.sent_low_timeouts.remove(k);
+            let t2 = self.mk_timeout(q, r, self.tip_qc());
+            self.note_valid_cert_delivered(self.tip.1);
+            self.send_cons(q, &ConsensusMessage::Timeout(t2));
+            self.probe("puppet.timeout-resent-with-higher-qc");
+        }
         let high = if self.r.chance(0.5) && self.tip.1 < r { self.tip_qc() } else { QC::genesis() };
+        if ident::is_genesis_qc(&high) {
+            self.sent_low_timeouts.push(p);
+        }
         if !ident::is_genesis_qc(&high) {
             self.note_valid_cert_delivered(high.round);
         }
@@ -550,6 +568,8 @@ impl Puppet {
         }
         if !order.is_empty() {
             self.trickle_timeouts = Some((r, order, stake, false));
+        } else {
+            self.sent_low_timeouts.clear();
         }
     }
 
